@@ -6,6 +6,7 @@ import (
 	"fmt"
 	"go/token"
 	"go/types"
+	"os"
 	"strings"
 
 	"golang.org/x/tools/go/ssa"
@@ -44,6 +45,25 @@ func runC09(c *Ctx) {
 		return
 	}
 	nrT := "*rules.NetworkRule"
+	// The sequence reading first: when DNSRewrites can be read as a filtered view of
+	// DNSRewritesAll() the result is compared with the statement directly (R10) and the rules that
+	// judge the familiar division of work (R1, R2, R3, R5, R7) have nothing left to decide.
+	c.Rule("C09.R10", "SEQ", "the result of DNSRewrites is DNSRewritesAll() without the exception rules and without the rewrites some exception disables, in order", 0)
+	seqDecided, seqBad, seqWhy := seqDecide(c, dr, dra, kImp)
+	if os.Getenv("UFSEQ") != "" {
+		fmt.Println("SEQ:", seqDecided, "BAD:", seqBad, "WHY:", seqWhy)
+	}
+	if seqDecided {
+		for _, id := range []string{"C09.R1", "C09.R2", "C09.R3", "C09.R5", "C09.R7"} {
+			c.Rules[id].Floor = 0
+		}
+		c.Rules["C09.R10"].Floor = 1
+		c.Extra["sequence_reading"] = "decided"
+		c.Check(seqBad == "", "C09.R10", "DNSRewrites: result as a filtered view of DNSRewritesAll()", dr.Pos(),
+			"every list on the way to the result read as 'DNSRewritesAll() without the elements with drop(x)'; drop of the result = Whitelist(x) or some exception of the list disables x, the disabling relation equal to the statement's on every valuation of its criteria", seqBad)
+	} else {
+		c.Extra["sequence_reading"] = "outside the reading (" + seqWhy + "); judged by R1, R2, R3, R5, R7"
+	}
 	// roles
 	var rme, me *ssa.Function
 	eachInstrG(c.P, dr, func(_ *ssa.BasicBlock, in ssa.Instruction) {
@@ -56,11 +76,15 @@ func runC09(c *Ctx) {
 			}
 		}
 	})
-	if rme == nil {
+	if rme == nil && !seqDecided {
 		c.Fail("C09.R3", "anchor:exception remover", dr.Pos(), "unresolved anchor: DNSRewrites calls no func([]*NetworkRule, *NetworkRule) []*NetworkRule")
 		return
 	}
-	for _, fn := range withAnon(rme) {
+	var rmeFns []*ssa.Function
+	if rme != nil {
+		rmeFns = withAnon(rme)
+	}
+	for _, fn := range rmeFns {
 		eachInstrG(c.P, fn, func(_ *ssa.BasicBlock, in ssa.Instruction) {
 			if ci, ok := in.(ssa.CallInstruction); ok {
 				if cal := ci.Common().StaticCallee(); cal != nil && c.P.IsLibFunc(cal) && !c.P.IsNewHelper(cal) {
@@ -74,399 +98,410 @@ func runC09(c *Ctx) {
 	}
 	// the matcher is an internal helper: when it exists in its familiar shape it is expanded by
 	// name, otherwise it is a new helper (or a closure / method value) and transparent anyway
-	c.Fn(FuncName(dr), FuncName(dra), FuncName(rme))
-	scope := []*ssa.Function{dr, rme, dra}
+	c.Fn(FuncName(dr), FuncName(dra))
+	scope := []*ssa.Function{dr, dra}
+	groupRoots := []*ssa.Function{dr}
+	if rme != nil {
+		c.Fn(FuncName(rme))
+		scope = append(scope, rme)
+		groupRoots = append(groupRoots, rme)
+	}
 	if me != nil {
 		c.Fn(FuncName(me))
 		scope = append(scope, me)
 	}
-	for gf := range helperGroup(c.P, rme, dr) {
+	for gf := range helperGroup(c.P, groupRoots...) {
 		if c.P.IsNewHelper(gf) {
 			scope = append(scope, gf)
 		}
 	}
-	for _, fn := range withAnon(rme)[1:] {
-		scope = append(scope, fn)
+	for _, fn := range rmeFns {
+		if fn != rme {
+			scope = append(scope, fn)
+		}
 	}
 	for _, fn := range withAnon(dr)[1:] {
 		scope = append(scope, fn)
 	}
 
 	// ---------- R1 ITER ----------
-	for _, fn := range []*ssa.Function{dr, rme} {
-		bad := ""
-		for _, l := range loopsOf(fn) {
-			ro := rangedOver(l)
-			if ro == nil {
-				continue
-			}
-			// is the bound len(x) with x a loop-carried φ that is reassigned from a shrinking call?
-			ph, ok := ro.Coll.(*ssa.Phi)
-			if !ok || ph.Block() != l.Header {
-				continue
-			}
-			for i, p := range l.Header.Preds {
-				if !l.Blocks[p] {
+	if !seqDecided {
+		for _, fn := range []*ssa.Function{dr, rme} {
+			bad := ""
+			for _, l := range loopsOf(fn) {
+				ro := rangedOver(l)
+				if ro == nil {
 					continue
 				}
-				if shrinks(ph.Edges[i], ph, 0) {
-					// index must be compensated: accept only if the index latch value is not φ+1 on this edge
-					if idx, ok := ro.Index.(*ssa.Phi); ok {
-						if b, ok := idx.Edges[i].(*ssa.BinOp); ok && b.Op == token.ADD && b.X == ssa.Value(idx) && isConstInt(b.Y, 1) {
-							bad = "the loop indexes slice " + ph.Comment + " and removes elements from it in the body, then advances the index: the element that moved into the freed slot is skipped"
+				// is the bound len(x) with x a loop-carried φ that is reassigned from a shrinking call?
+				ph, ok := ro.Coll.(*ssa.Phi)
+				if !ok || ph.Block() != l.Header {
+					continue
+				}
+				for i, p := range l.Header.Preds {
+					if !l.Blocks[p] {
+						continue
+					}
+					if shrinks(ph.Edges[i], ph, 0) {
+						// index must be compensated: accept only if the index latch value is not φ+1 on this edge
+						if idx, ok := ro.Index.(*ssa.Phi); ok {
+							if b, ok := idx.Edges[i].(*ssa.BinOp); ok && b.Op == token.ADD && b.X == ssa.Value(idx) && isConstInt(b.Y, 1) {
+								bad = "the loop indexes slice " + ph.Comment + " and removes elements from it in the body, then advances the index: the element that moved into the freed slot is skipped"
+							}
+						} else {
+							bad = "the loop ranges by index over a slice that it shrinks in the body"
 						}
-					} else {
-						bad = "the loop ranges by index over a slice that it shrinks in the body"
 					}
 				}
 			}
+			c.Check(bad == "", "C09.R1", shortFn(fn)+": iteration hygiene", fn.Pos(), "no indexed loop over a slice it shrinks", bad)
 		}
-		c.Check(bad == "", "C09.R1", shortFn(fn)+": iteration hygiene", fn.Pos(), "no indexed loop over a slice it shrinks", bad)
-	}
 
-	// ---------- R2 exceptions filtered ----------
-	{
-		isWhitelistPred := func(v ssa.Value) bool {
-			var fn *ssa.Function
-			switch x := v.(type) {
-			case *ssa.MakeClosure:
-				fn = x.Fn.(*ssa.Function)
-			case *ssa.Function:
-				fn = x
-			default:
-				return false
-			}
-			g := NewGate(c.P)
-			g.Inline = inlineOnly()
-			s := g.Eval(fn)
-			if len(s.Effects) != 0 || len(fn.Params) != 1 {
-				return false
-			}
-			r := g.RetExpr(s, 0)
-			p := g.ParamExprs(fn)[0]
-			return g.U.ToBool(r) == g.U.Atom(g.U.Field(p, "Whitelist", types.Typ[types.Bool]))
-		}
-		bad := ""
-		g2 := NewGate(c.P)
-		g2.Inline = inlineOnly()
-		s2 := g2.Eval(dr)
-		u2 := g2.U
-		seen := map[ssa.Value]bool{}
-		var walk func(v ssa.Value)
-		var curRet *ssa.Return
-		// the unfiltered list is returned only where the collection of its exception rules is empty
-		noExceptionsAt := func(ret *ssa.Return, src *ssa.Call) bool {
-			rc := s2.RCAt(ret)
-			srcE := s2.Env[src]
-			if srcE == nil {
-				return false
-			}
-			for _, at := range u2.AtomsOf(rc) {
-				if at.Op != "eq" || !u2.bdd.Implies(rc, u2.Atom(at)) {
-					continue
+		// ---------- R2 exceptions filtered ----------
+		{
+			isWhitelistPred := func(v ssa.Value) bool {
+				var fn *ssa.Function
+				switch x := v.(type) {
+				case *ssa.MakeClosure:
+					fn = x.Fn.(*ssa.Function)
+				case *ssa.Function:
+					fn = x
+				default:
+					return false
 				}
-				for i := 0; i < 2; i++ {
-					x, k := at.Args[i], at.Args[1-i]
-					// the list itself is empty: nothing in it, exceptions included
-					if x.Op == "len" && isIntConst(k, 0) && x.Args[0] == srcE {
-						return true
+				g := NewGate(c.P)
+				g.Inline = inlineOnly()
+				s := g.Eval(fn)
+				if len(s.Effects) != 0 || len(fn.Params) != 1 {
+					return false
+				}
+				r := g.RetExpr(s, 0)
+				p := g.ParamExprs(fn)[0]
+				return g.U.ToBool(r) == g.U.Atom(g.U.Field(p, "Whitelist", types.Typ[types.Bool]))
+			}
+			bad := ""
+			g2 := NewGate(c.P)
+			g2.Inline = inlineOnly()
+			s2 := g2.Eval(dr)
+			u2 := g2.U
+			seen := map[ssa.Value]bool{}
+			var walk func(v ssa.Value)
+			var curRet *ssa.Return
+			// the unfiltered list is returned only where the collection of its exception rules is empty
+			noExceptionsAt := func(ret *ssa.Return, src *ssa.Call) bool {
+				rc := s2.RCAt(ret)
+				srcE := s2.Env[src]
+				if srcE == nil {
+					return false
+				}
+				for _, at := range u2.AtomsOf(rc) {
+					if at.Op != "eq" || !u2.bdd.Implies(rc, u2.Atom(at)) {
+						continue
 					}
-					if x.Op == "len" && isIntConst(k, 0) {
-						if collectsAll(g2, s2, x.Args[0], srcE, func(el *E) Ref { return u2.Atom(u2.Field(el, "Whitelist", types.Typ[types.Bool])) }) {
+					for i := 0; i < 2; i++ {
+						x, k := at.Args[i], at.Args[1-i]
+						// the list itself is empty: nothing in it, exceptions included
+						if x.Op == "len" && isIntConst(k, 0) && x.Args[0] == srcE {
 							return true
 						}
+						if x.Op == "len" && isIntConst(k, 0) {
+							if collectsAll(g2, s2, x.Args[0], srcE, func(el *E) Ref { return u2.Atom(u2.Field(el, "Whitelist", types.Typ[types.Bool])) }) {
+								return true
+							}
+						}
 					}
 				}
-			}
-			return false
-		}
-		// filtered in place: a slice built by appending, to an empty prefix x[:0] (or nil), only
-		// elements that are not exception rules
-		inPlace := func(v ssa.Value) bool {
-			ems, bases := traceAppends(g2, AV{s2, v})
-			if len(ems) == 0 {
 				return false
 			}
-			for _, em := range ems {
-				if len(em.Elems) != 1 {
+			// filtered in place: a slice built by appending, to an empty prefix x[:0] (or nil), only
+			// elements that are not exception rules
+			inPlace := func(v ssa.Value) bool {
+				ems, bases := traceAppends(g2, AV{s2, v})
+				if len(ems) == 0 {
 					return false
 				}
-				w := u2.Atom(u2.Field(em.Elems[0], "Whitelist", types.Typ[types.Bool]))
-				if !u2.bdd.Implies(em.RC, u2.bdd.Not(w)) {
-					bad = c.P.Pos(em.Call.Pos()) + ": an exception rule (Whitelist) can be appended to the result"
-					return true
+				for _, em := range ems {
+					if len(em.Elems) != 1 {
+						return false
+					}
+					w := u2.Atom(u2.Field(em.Elems[0], "Whitelist", types.Typ[types.Bool]))
+					if !u2.bdd.Implies(em.RC, u2.bdd.Not(w)) {
+						bad = c.P.Pos(em.Call.Pos()) + ": an exception rule (Whitelist) can be appended to the result"
+						return true
+					}
 				}
+				for _, b := range bases {
+					if sl, ok := b.V.(*ssa.Slice); ok && sl.High != nil && isConstInt(sl.High, 0) {
+						continue // x[:0]: no elements
+					}
+					if b.Act != s2 {
+						return false
+					}
+					walk(b.V)
+				}
+				return true
 			}
-			for _, b := range bases {
-				if sl, ok := b.V.(*ssa.Slice); ok && sl.High != nil && isConstInt(sl.High, 0) {
-					continue // x[:0]: no elements
-				}
-				if b.Act != s2 {
-					return false
-				}
-				walk(b.V)
-			}
-			return true
-		}
-		walk = func(v ssa.Value) {
-			if v == nil || seen[v] || bad != "" {
-				return
-			}
-			seen[v] = true
-			switch x := v.(type) {
-			case *ssa.Const:
-				if x.Value != nil {
-					bad = "non-nil constant result"
-				}
-			case *ssa.Phi:
-				if inPlace(x) {
+			walk = func(v ssa.Value) {
+				if v == nil || seen[v] || bad != "" {
 					return
 				}
-				for _, e := range x.Edges {
-					walk(e)
-				}
-			case *ssa.Call:
-				cal := x.Call.StaticCallee()
-				if b, ok := x.Call.Value.(*ssa.Builtin); ok && b.Name() == "append" {
-					if !inPlace(x) {
-						bad = "UNDECIDED: result built by an append that is not a filter of single elements"
+				seen[v] = true
+				switch x := v.(type) {
+				case *ssa.Const:
+					if x.Value != nil {
+						bad = "non-nil constant result"
 					}
-					return
-				}
-				switch {
-				case cal == rme:
-					walk(x.Call.Args[0])
-				case cal != nil && strings.HasPrefix(calleeName(cal), "slices.DeleteFunc"):
-					if isWhitelistPred(x.Call.Args[1]) {
-						return // filtered
+				case *ssa.Phi:
+					if inPlace(x) {
+						return
 					}
-					walk(x.Call.Args[0])
-				case cal == dra:
-					if curRet != nil && noExceptionsAt(curRet, x) {
-						return // returned as is only when it holds no exception rule
+					for _, e := range x.Edges {
+						walk(e)
 					}
-					bad = "a value returned by DNSRewrites comes from DNSRewritesAll() without passing a filter that deletes the exception rules (Whitelist)"
+				case *ssa.Call:
+					cal := x.Call.StaticCallee()
+					if b, ok := x.Call.Value.(*ssa.Builtin); ok && b.Name() == "append" {
+						if !inPlace(x) {
+							bad = "UNDECIDED: result built by an append that is not a filter of single elements"
+						}
+						return
+					}
+					switch {
+					case cal == rme:
+						walk(x.Call.Args[0])
+					case cal != nil && strings.HasPrefix(calleeName(cal), "slices.DeleteFunc"):
+						if isWhitelistPred(x.Call.Args[1]) {
+							return // filtered
+						}
+						walk(x.Call.Args[0])
+					case cal == dra:
+						if curRet != nil && noExceptionsAt(curRet, x) {
+							return // returned as is only when it holds no exception rule
+						}
+						bad = "a value returned by DNSRewrites comes from DNSRewritesAll() without passing a filter that deletes the exception rules (Whitelist)"
+					default:
+						bad = "UNDECIDED: result derived from an unrecognised call " + x.String()
+					}
 				default:
-					bad = "UNDECIDED: result derived from an unrecognised call " + x.String()
+					bad = "UNDECIDED: result derived from " + v.String()
 				}
-			default:
-				bad = "UNDECIDED: result derived from " + v.String()
 			}
+			eachInstr(dr, func(_ *ssa.BasicBlock, in ssa.Instruction) {
+				if r, ok := in.(*ssa.Return); ok {
+					// every return site is judged on its own: what reaches it, under its reach condition
+					seen = map[ssa.Value]bool{}
+					curRet = r
+					walk(r.Results[0])
+				}
+			})
+			c.Check(bad == "", "C09.R2", "DNSRewrites: result excludes exception rules", dr.Pos(), "every returned value passed slices.DeleteFunc(_, nr => nr.Whitelist) (or is nil)", bad)
 		}
-		eachInstr(dr, func(_ *ssa.BasicBlock, in ssa.Instruction) {
-			if r, ok := in.(*ssa.Return); ok {
-				// every return site is judged on its own: what reaches it, under its reach condition
-				seen = map[ssa.Value]bool{}
-				curRet = r
-				walk(r.Results[0])
-			}
-		})
-		c.Check(bad == "", "C09.R2", "DNSRewrites: result excludes exception rules", dr.Pos(), "every returned value passed slices.DeleteFunc(_, nr => nr.Whitelist) (or is nil)", bad)
-	}
 
-	// ---------- R3 decision tables ----------
-	// The remover is evaluated with its internal helpers transparent (the matcher, closures,
-	// method values, small carrier structs): the result is the input list, nil, or
-	// slices.DeleteFunc(list, lambda(P)) with P a formula over the candidate element.
-	{
-		g := NewGate(c.P)
-		// everything below the remover is internal: expand all of it
-		g.Inline = nil
-		g.Search = true
-		s := g.Eval(rme)
-		u := g.U
-		ps := g.ParamExprs(rme)
-		nrules, exc := ps[0], ps[1]
-		res := g.RetExpr(s, 0)
-		key := shortFn(rme) + ": four documented cases"
-		bad := ""
-		noRewrite := u.ToBool(u.Eq(u.Field(exc, "DNSRewrite", nil), u.mk("nil", "", nil)))
-		impOf := func(r *E) Ref {
-			en := u.Field(r, "enabledOptions", types.Typ[types.Uint64])
-			kc := u.ConstVal(constantInt(kImp), types.Typ[types.Uint64])
-			return u.ToBool(u.Eq(u.Bin(token.AND, en, kc, types.Typ[types.Uint64]), kc))
-		}
-		excImp := impOf(exc)
-		dfield := func(p *E, f string) string { return u.Field(u.Field(p, "DNSRewrite", nil), f, nil).key }
-		// the "empty value" atom is whatever else the case split depends on
-		var emptyAtoms []*E
-		for _, cond := range u.Leaves(res) {
-			for _, at := range u.AtomsOf(cond) {
-				if u.Atom(at) != excImp && u.Atom(at) != noRewrite {
-					dup := false
-					for _, e := range emptyAtoms {
-						if e == at {
-							dup = true
+		// ---------- R3 decision tables ----------
+		// The remover is evaluated with its internal helpers transparent (the matcher, closures,
+		// method values, small carrier structs): the result is the input list, nil, or
+		// slices.DeleteFunc(list, lambda(P)) with P a formula over the candidate element.
+		{
+			g := NewGate(c.P)
+			// everything below the remover is internal: expand all of it
+			g.Inline = nil
+			g.Search = true
+			s := g.Eval(rme)
+			u := g.U
+			ps := g.ParamExprs(rme)
+			nrules, exc := ps[0], ps[1]
+			res := g.RetExpr(s, 0)
+			key := shortFn(rme) + ": four documented cases"
+			bad := ""
+			noRewrite := u.ToBool(u.Eq(u.Field(exc, "DNSRewrite", nil), u.mk("nil", "", nil)))
+			impOf := func(r *E) Ref {
+				en := u.Field(r, "enabledOptions", types.Typ[types.Uint64])
+				kc := u.ConstVal(constantInt(kImp), types.Typ[types.Uint64])
+				return u.ToBool(u.Eq(u.Bin(token.AND, en, kc, types.Typ[types.Uint64]), kc))
+			}
+			excImp := impOf(exc)
+			dfield := func(p *E, f string) string { return u.Field(u.Field(p, "DNSRewrite", nil), f, nil).key }
+			// the "empty value" atom is whatever else the case split depends on
+			var emptyAtoms []*E
+			for _, cond := range u.Leaves(res) {
+				for _, at := range u.AtomsOf(cond) {
+					if u.Atom(at) != excImp && u.Atom(at) != noRewrite {
+						dup := false
+						for _, e := range emptyAtoms {
+							if e == at {
+								dup = true
+							}
 						}
-					}
-					if !dup {
-						emptyAtoms = append(emptyAtoms, at)
+						if !dup {
+							emptyAtoms = append(emptyAtoms, at)
+						}
 					}
 				}
 			}
-		}
-		// the "no rewrite => unchanged" case may live in the caller: the remover is then judged for
-		// exceptions that have a rewrite only
-		care := True
-		hasUnchanged := false
-		for leaf := range u.Leaves(res) {
-			if leaf == nrules {
-				hasUnchanged = true
-			}
-		}
-		if !hasUnchanged && callerSkipsExactlyNoRewrite(c, dr, rme) {
-			care = u.bdd.Not(noRewrite)
-		}
-		same := func(a, b Ref) bool { return u.bdd.And(a, care) == u.bdd.And(b, care) }
-		nTables := 0
-		if len(emptyAtoms) != 1 {
-			bad = fmt.Sprintf("UNDECIDED: expected exactly one test for an empty exception value, found %d", len(emptyAtoms))
-		} else {
-			ea := emptyAtoms[0]
-			if !u.Mentions(ea, func(x *E) bool { return x.Op == "field" && x.Aux == "DNSRewrite" && x.Args[0] == exc }) {
-				bad = "UNDECIDED: the emptiness test does not read the exception's rewrite: " + u.Show(ea)
-			}
-			empty := u.Atom(ea)
-			for leaf, cond := range u.Leaves(res) {
-				if bad != "" {
-					break
+			// the "no rewrite => unchanged" case may live in the caller: the remover is then judged for
+			// exceptions that have a rewrite only
+			care := True
+			hasUnchanged := false
+			for leaf := range u.Leaves(res) {
+				if leaf == nrules {
+					hasUnchanged = true
 				}
-				switch {
-				case leaf == nrules:
-					if cond != noRewrite {
-						bad = "the list is returned unchanged under " + clip(u.ShowBool(cond), 120) + ", documented: only when the rule has no rewrite"
-					}
-				case leaf.IsNil():
-					if !same(cond, u.bdd.And(u.bdd.Not(noRewrite), u.bdd.And(empty, excImp))) {
-						bad = "everything is removed under " + clip(u.ShowBool(cond), 120) + ", documented: exactly for an important exception with an empty value"
-					}
-				case leaf.Op == "call" && strings.HasPrefix(leaf.Aux, "slices.DeleteFunc") && len(leaf.Args) == 2 && leaf.Args[0] == nrules && leaf.Args[1].Op == "lambda":
-					P := u.ToBool(leaf.Args[1].Args[0])
-					var nr *E
-					for _, at := range u.AtomsOf(P) {
-						for _, x := range u.Collect(at, func(x *E) bool { return x.Op == "bvar" }) {
-							nr = x
-						}
-					}
-					if nr == nil {
-						bad = "the deletion predicate does not depend on the candidate rule: " + clip(u.ShowBool(P), 120)
+			}
+			if !hasUnchanged && callerSkipsExactlyNoRewrite(c, dr, rme) {
+				care = u.bdd.Not(noRewrite)
+			}
+			same := func(a, b Ref) bool { return u.bdd.And(a, care) == u.bdd.And(b, care) }
+			nTables := 0
+			if len(emptyAtoms) != 1 {
+				bad = fmt.Sprintf("UNDECIDED: expected exactly one test for an empty exception value, found %d", len(emptyAtoms))
+			} else {
+				ea := emptyAtoms[0]
+				if !u.Mentions(ea, func(x *E) bool { return x.Op == "field" && x.Aux == "DNSRewrite" && x.Args[0] == exc }) {
+					bad = "UNDECIDED: the emptiness test does not read the exception's rewrite: " + u.Show(ea)
+				}
+				empty := u.Atom(ea)
+				for leaf, cond := range u.Leaves(res) {
+					if bad != "" {
 						break
 					}
-					nrImp := impOf(nr)
-					// one deletion may serve both documented cases (predicate selected by the emptiness
-					// test): each polarity of the test is judged on its own
-					cond0, P0 := cond, P
-					for _, pol := range []bool{true, false} {
-						lit := empty
-						if !pol {
-							lit = u.bdd.Not(empty)
+					switch {
+					case leaf == nrules:
+						if cond != noRewrite {
+							bad = "the list is returned unchanged under " + clip(u.ShowBool(cond), 120) + ", documented: only when the rule has no rewrite"
 						}
-						cond := u.bdd.And(cond0, lit)
-						if cond == False || bad != "" {
-							continue
+					case leaf.IsNil():
+						if !same(cond, u.bdd.And(u.bdd.Not(noRewrite), u.bdd.And(empty, excImp))) {
+							bad = "everything is removed under " + clip(u.ShowBool(cond), 120) + ", documented: exactly for an important exception with an empty value"
 						}
-						P := u.bdd.Restrict(u.bdd.Cofactor(P0, u.atomIx[ea.key], pol), cond)
-						switch {
-						case same(cond, u.bdd.And(u.bdd.Not(noRewrite), u.bdd.And(empty, u.bdd.Not(excImp)))):
-							// P is evaluated under this case condition
-							got := u.bdd.Restrict(P, cond)
-							if got != u.bdd.Not(nrImp) {
-								bad = "a non-important empty exception must delete exactly the non-important rewrites; predicate is " + clip(u.ShowBool(got), 120)
+					case leaf.Op == "call" && strings.HasPrefix(leaf.Aux, "slices.DeleteFunc") && len(leaf.Args) == 2 && leaf.Args[0] == nrules && leaf.Args[1].Op == "lambda":
+						P := u.ToBool(leaf.Args[1].Args[0])
+						var nr *E
+						for _, at := range u.AtomsOf(P) {
+							for _, x := range u.Collect(at, func(x *E) bool { return x.Op == "bvar" }) {
+								nr = x
 							}
-						case same(cond, u.bdd.And(u.bdd.Not(noRewrite), u.bdd.Not(empty))):
-							nTables++
-							H := P
-							roles := map[string]*E{}
-							unknown := ""
-							for _, at := range u.AtomsOf(H) {
-								c.Atoms[at.key] = true
-								switch {
-								case u.Atom(at) == excImp:
-									roles["excImp"] = at
-								case u.Atom(at) == nrImp:
-									roles["nrImp"] = at
-								case u.Atom(at) == empty:
-									roles["excCnameEmpty"] = at
-								case at.Op == "eq" && at.Args[0].Op == "len" && at.Args[0].Args[0].key == dfield(exc, "NewCNAME") && isIntConst(at.Args[1], 0):
-									roles["excCnameEmpty"] = at
-								case at.Op == "eq" && pairIs(at, dfield(exc, "NewCNAME"), dfield(nr, "NewCNAME")):
-									roles["sameCname"] = at
-								case at.Op == "eq" && pairIs(at, dfield(exc, "RCode"), dfield(nr, "RCode")):
-									roles["sameRcode"] = at
-								case at.Op == "eq" && at.Args[0].key == dfield(exc, "RCode") && isIntConst(at.Args[1], 0):
-									roles["excSuccess"] = at
-								case at.Op == "eq" && pairIs(at, dfield(exc, "RRType"), dfield(nr, "RRType")):
-									roles["sameType"] = at
-								case (at.Op == "call" || at.Op == "eq") && len(at.Args) >= 2 && pairIs(at, dfield(exc, "Value"), dfield(nr, "Value")):
-									roles["sameValue"] = at
-								case u.Atom(at) == noRewrite:
-									roles["noRewrite"] = at
-								default:
-									unknown = u.Show(at)
+						}
+						if nr == nil {
+							bad = "the deletion predicate does not depend on the candidate rule: " + clip(u.ShowBool(P), 120)
+							break
+						}
+						nrImp := impOf(nr)
+						// one deletion may serve both documented cases (predicate selected by the emptiness
+						// test): each polarity of the test is judged on its own
+						cond0, P0 := cond, P
+						for _, pol := range []bool{true, false} {
+							lit := empty
+							if !pol {
+								lit = u.bdd.Not(empty)
+							}
+							cond := u.bdd.And(cond0, lit)
+							if cond == False || bad != "" {
+								continue
+							}
+							P := u.bdd.Restrict(u.bdd.Cofactor(P0, u.atomIx[ea.key], pol), cond)
+							switch {
+							case same(cond, u.bdd.And(u.bdd.Not(noRewrite), u.bdd.And(empty, u.bdd.Not(excImp)))):
+								// P is evaluated under this case condition
+								got := u.bdd.Restrict(P, cond)
+								if got != u.bdd.Not(nrImp) {
+									bad = "a non-important empty exception must delete exactly the non-important rewrites; predicate is " + clip(u.ShowBool(got), 120)
 								}
-							}
-							if unknown != "" {
-								bad = "UNDECIDED: the matcher reads a predicate outside the documented criteria: " + clip(unknown, 160)
-								break
-							}
-							names := []string{"excImp", "nrImp", "excCnameEmpty", "sameCname", "sameRcode", "excSuccess", "sameType", "sameValue"}
-							for _, n := range names {
-								if roles[n] == nil && n != "excImp" && n != "excCnameEmpty" {
-									bad = "a documented criterion is never read: " + n
-								}
-							}
-							n := 0
-							for m := 0; m < 1<<len(names) && bad == ""; m++ {
-								val := map[string]bool{}
-								asgKey := map[string]bool{}
-								for i, nm := range names {
-									val[nm] = m&(1<<i) != 0
-									if roles[nm] != nil {
-										asgKey[roles[nm].key] = val[nm]
+							case same(cond, u.bdd.And(u.bdd.Not(noRewrite), u.bdd.Not(empty))):
+								nTables++
+								H := P
+								roles := map[string]*E{}
+								unknown := ""
+								for _, at := range u.AtomsOf(H) {
+									c.Atoms[at.key] = true
+									switch {
+									case u.Atom(at) == excImp:
+										roles["excImp"] = at
+									case u.Atom(at) == nrImp:
+										roles["nrImp"] = at
+									case u.Atom(at) == empty:
+										roles["excCnameEmpty"] = at
+									case at.Op == "eq" && at.Args[0].Op == "len" && at.Args[0].Args[0].key == dfield(exc, "NewCNAME") && isIntConst(at.Args[1], 0):
+										roles["excCnameEmpty"] = at
+									case at.Op == "eq" && pairIs(at, dfield(exc, "NewCNAME"), dfield(nr, "NewCNAME")):
+										roles["sameCname"] = at
+									case at.Op == "eq" && pairIs(at, dfield(exc, "RCode"), dfield(nr, "RCode")):
+										roles["sameRcode"] = at
+									case at.Op == "eq" && at.Args[0].key == dfield(exc, "RCode") && isIntConst(at.Args[1], 0):
+										roles["excSuccess"] = at
+									case at.Op == "eq" && pairIs(at, dfield(exc, "RRType"), dfield(nr, "RRType")):
+										roles["sameType"] = at
+									case (at.Op == "call" || at.Op == "eq") && len(at.Args) >= 2 && pairIs(at, dfield(exc, "Value"), dfield(nr, "Value")):
+										roles["sameValue"] = at
+									case u.Atom(at) == noRewrite:
+										roles["noRewrite"] = at
+									default:
+										unknown = u.Show(at)
 									}
 								}
-								if roles["noRewrite"] != nil {
-									asgKey[roles["noRewrite"].key] = false
+								if unknown != "" {
+									bad = "UNDECIDED: the matcher reads a predicate outside the documented criteria: " + clip(unknown, 160)
+									break
 								}
-								// this case: the exception has a value.  "Empty value" is the emptiness of
-								// the new CNAME together with a zero response code etc.; within this case
-								// the table is the documented one for every valuation of the criteria.
-								if ea.Op == "eq" && roles["excCnameEmpty"] == ea && val["excCnameEmpty"] {
-									// the case condition (value not empty) excludes this valuation only when
-									// emptiness is the CNAME test itself
-									continue
+								names := []string{"excImp", "nrImp", "excCnameEmpty", "sameCname", "sameRcode", "excSuccess", "sameType", "sameValue"}
+								for _, n := range names {
+									if roles[n] == nil && n != "excImp" && n != "excCnameEmpty" {
+										bad = "a documented criterion is never read: " + n
+									}
 								}
-								got := u.bdd.Eval(H, func(v int) bool { return asgKey[u.atoms[v].key] })
-								n++
-								var want bool
-								switch {
-								case !val["excImp"] && val["nrImp"]:
-									want = false
-								case !val["excCnameEmpty"]:
-									want = val["sameCname"]
-								default:
-									want = val["sameRcode"] && (!val["excSuccess"] || (val["sameType"] && val["sameValue"]))
+								n := 0
+								for m := 0; m < 1<<len(names) && bad == ""; m++ {
+									val := map[string]bool{}
+									asgKey := map[string]bool{}
+									for i, nm := range names {
+										val[nm] = m&(1<<i) != 0
+										if roles[nm] != nil {
+											asgKey[roles[nm].key] = val[nm]
+										}
+									}
+									if roles["noRewrite"] != nil {
+										asgKey[roles["noRewrite"].key] = false
+									}
+									// this case: the exception has a value.  "Empty value" is the emptiness of
+									// the new CNAME together with a zero response code etc.; within this case
+									// the table is the documented one for every valuation of the criteria.
+									if ea.Op == "eq" && roles["excCnameEmpty"] == ea && val["excCnameEmpty"] {
+										// the case condition (value not empty) excludes this valuation only when
+										// emptiness is the CNAME test itself
+										continue
+									}
+									got := u.bdd.Eval(H, func(v int) bool { return asgKey[u.atoms[v].key] })
+									n++
+									var want bool
+									switch {
+									case !val["excImp"] && val["nrImp"]:
+										want = false
+									case !val["excCnameEmpty"]:
+										want = val["sameCname"]
+									default:
+										want = val["sameRcode"] && (!val["excSuccess"] || (val["sameType"] && val["sameValue"]))
+									}
+									if got != want {
+										bad = fmt.Sprintf("for %v the matcher says disabled=%v, the statement says %v", val, got, want)
+									}
 								}
-								if got != want {
-									bad = fmt.Sprintf("for %v the matcher says disabled=%v, the statement says %v", val, got, want)
-								}
+								c.Paths += n
+							default:
+								bad = "DeleteFunc applied under an undocumented condition " + clip(u.ShowBool(cond), 160)
 							}
-							c.Paths += n
-						default:
-							bad = "DeleteFunc applied under an undocumented condition " + clip(u.ShowBool(cond), 160)
 						}
+					default:
+						bad = "UNDECIDED: unrecognised result " + clip(u.Show(leaf), 120)
 					}
-				default:
-					bad = "UNDECIDED: unrecognised result " + clip(u.Show(leaf), 120)
 				}
 			}
+			if bad == "" && nTables == 0 {
+				bad = "an exception with a value deletes nothing: no deletion by the documented criteria found"
+			}
+			c.Check(bad == "", "C09.R3", key, rme.Pos(), "no rewrite => unchanged; empty+important => nothing left; empty => non-important removed; value => the documented decision table over the candidate", bad)
+			c.Check(bad == "", "C09.R3", shortFn(rme)+": decision table of the deletion predicate", rme.Pos(), "equals the documented table on all valuations of its criteria", bad)
 		}
-		if bad == "" && nTables == 0 {
-			bad = "an exception with a value deletes nothing: no deletion by the documented criteria found"
-		}
-		c.Check(bad == "", "C09.R3", key, rme.Pos(), "no rewrite => unchanged; empty+important => nothing left; empty => non-important removed; value => the documented decision table over the candidate", bad)
-		c.Check(bad == "", "C09.R3", shortFn(rme)+": decision table of the deletion predicate", rme.Pos(), "equals the documented table on all valuations of its criteria", bad)
-	}
+
+	} // !seqDecided
 
 	// ---------- R4 by-value ----------
 	{
@@ -510,7 +545,7 @@ func runC09(c *Ctx) {
 			})
 		}
 		c.Extra["rewrite_value_dynamic_types"] = sortedKeys(dyn)
-		c.Check(bad == "", "C09.R4", "no interface == on DNSRewrite.Value anywhere in the library", rme.Pos(), fmt.Sprintf("%d ==/!= sites inspected; dynamic types of the field: %v", n, sortedKeys(dyn)), bad)
+		c.Check(bad == "", "C09.R4", "no interface == on DNSRewrite.Value anywhere in the library", dr.Pos(), fmt.Sprintf("%d ==/!= sites inspected; dynamic types of the field: %v", n, sortedKeys(dyn)), bad)
 	}
 
 	// ---------- R5 order preserving; R6 fresh ----------
@@ -537,7 +572,9 @@ func runC09(c *Ctx) {
 				}
 			})
 		}
-		c.Check(bad == "", "C09.R5", "DNSRewrites and helpers: order-preserving operations only", dr.Pos(), "library calls on slices are DeleteFunc/Delete only", bad)
+		if !seqDecided {
+			c.Check(bad == "", "C09.R5", "DNSRewrites and helpers: order-preserving operations only", dr.Pos(), "library calls on slices are DeleteFunc/Delete only", bad)
+		}
 
 		// R6: DNSRewritesAll returns fresh memory
 		bad = ""
@@ -573,59 +610,108 @@ func runC09(c *Ctx) {
 			}
 		})
 		c.Check(bad == "", "C09.R6", "DNSRewritesAll returns a fresh slice", dra.Pos(), "every returned value is nil or built by append from nil", bad)
-		// in-place ops in DNSRewrites act on values derived from DNSRewritesAll()
+		// in-place ops in DNSRewrites (and the helpers expanded into it) act on values derived from
+		// DNSRewritesAll()
 		bad = ""
-		var src func(v ssa.Value, depth int) bool
-		src = func(v ssa.Value, depth int) bool {
-			if depth > 12 {
+		g6 := NewGate(c.P)
+		g6.Inline = inlineOnly()
+		s6 := g6.Eval(dr)
+		var src func(a AV, depth int) bool
+		subRets := func(sub *Summary, idx, depth int) bool {
+			for _, b := range sub.Fn.Blocks {
+				if r, ok := b.Instrs[len(b.Instrs)-1].(*ssa.Return); ok && idx < len(r.Results) {
+					if !src(AV{sub, r.Results[idx]}, depth+1) {
+						return false
+					}
+				}
+			}
+			return true
+		}
+		src = func(a AV, depth int) bool {
+			if depth > 16 {
 				return true
 			}
-			switch x := v.(type) {
+			switch x := a.V.(type) {
 			case *ssa.Phi:
 				for _, e := range x.Edges {
-					if e != ssa.Value(x) && !src(e, depth+1) {
+					if e != ssa.Value(x) && !src(AV{a.Act, e}, depth+1) {
 						return false
 					}
 				}
 				return true
+			case *ssa.Parameter:
+				if a.Act.Parent != nil && a.Act.Site != nil {
+					if ci, ok := a.Act.Site.(ssa.CallInstruction); ok {
+						for i, p := range a.Act.Fn.Params {
+							if p == x && i < len(ci.Common().Args) {
+								return src(AV{a.Act.Parent, ci.Common().Args[i]}, depth+1)
+							}
+						}
+					}
+				}
+				return false
+			case *ssa.Extract:
+				if call, ok := x.Tuple.(*ssa.Call); ok {
+					if sub := subAt(g6, a.Act, call); sub != nil {
+						return subRets(sub, x.Index, depth)
+					}
+				}
+				return false
 			case *ssa.Call:
 				cal := x.Call.StaticCallee()
 				if cal == dra {
 					return true
 				}
-				if cal == rme || (cal != nil && strings.HasPrefix(calleeName(cal), "slices.Delete")) {
-					return src(x.Call.Args[0], depth+1)
+				if (rme != nil && cal == rme) || (cal != nil && strings.HasPrefix(calleeName(cal), "slices.Delete")) {
+					return src(AV{a.Act, x.Call.Args[0]}, depth+1)
 				}
 				if b, ok := x.Call.Value.(*ssa.Builtin); ok && b.Name() == "append" {
 					// the result lies in the operand's array or in a new one
-					return src(x.Call.Args[0], depth+1)
+					return src(AV{a.Act, x.Call.Args[0]}, depth+1)
+				}
+				if sub := subAt(g6, a.Act, x); sub != nil {
+					return subRets(sub, 0, depth)
 				}
 			case *ssa.Slice:
-				return src(x.X, depth+1)
+				return src(AV{a.Act, x.X}, depth+1)
+			case *ssa.ChangeType:
+				return src(AV{a.Act, x.X}, depth+1)
 			case *ssa.Const:
 				return x.Value == nil
 			}
 			return false
 		}
-		eachInstr(dr, func(_ *ssa.BasicBlock, in ssa.Instruction) {
-			if cl, ok := in.(*ssa.Call); ok {
-				cal := cl.Call.StaticCallee()
-				isClear := false
-				if b, ok := cl.Call.Value.(*ssa.Builtin); ok && b.Name() == "clear" {
-					isClear = true
+		acts := []*Summary{s6}
+		for _, sub := range g6.Subs {
+			if sub != s6 && c.P.IsNewHelper(sub.Fn) {
+				acts = append(acts, sub)
+			}
+		}
+		for _, act := range acts {
+			act := act
+			eachInstr(act.Fn, func(_ *ssa.BasicBlock, in ssa.Instruction) {
+				if in.Parent() != act.Fn {
+					return // closures are judged where they are expanded
 				}
-				if cal == rme || isClear || (cal != nil && strings.HasPrefix(calleeName(cal), "slices.Delete")) {
-					if !src(cl.Call.Args[0], 0) {
-						bad = c.P.Pos(cl.Pos()) + ": an in-place operation is applied to a slice that does not come from DNSRewritesAll()"
+				if cl, ok := in.(*ssa.Call); ok {
+					cal := cl.Call.StaticCallee()
+					isClear := false
+					if b, ok := cl.Call.Value.(*ssa.Builtin); ok && b.Name() == "clear" {
+						isClear = true
+					}
+					if (rme != nil && cal == rme) || isClear || (cal != nil && strings.HasPrefix(calleeName(cal), "slices.Delete")) {
+						if _, isSl := cl.Call.Args[0].Type().Underlying().(*types.Slice); isSl && !src(AV{act, cl.Call.Args[0]}, 0) {
+							bad = c.P.Pos(cl.Pos()) + ": an in-place operation is applied to a slice that does not come from DNSRewritesAll()"
+						}
 					}
 				}
-			}
-		})
+			})
+		}
 		c.Check(bad == "", "C09.R6", "DNSRewrites: in-place operations only on the fresh slice", dr.Pos(), "provenance of every in-place operand is DNSRewritesAll()", bad)
 	}
 
 	// ---------- R7 every exception applied ----------
-	{
+	if !seqDecided {
 		g := NewGate(c.P)
 		g.Inline = inlineOnly()
 		s := g.Eval(dr)
